@@ -498,6 +498,7 @@ replayed through the cluster model -/
 structure CSim where
   ss : Session
   names : List (String × Bool)
+  hostMask : Nat := 0                  -- bit i: the session's host filter rejects node i (it gets no pool)
   rules : List (Nat × Option Nat)      -- (name index, node or all): the node answers that `USE` with an error
   muted : List Nat := []               -- nodes that do not answer `USE` at all (the statement is dropped)
   stuck : List (Nat × List (Nat × Nat)) := []   -- per node: (connection, number of dropped statements still in its queue)
@@ -518,7 +519,7 @@ def CSim.onNode (c : CSim) (n : Nat) (f : Sim → Sim) : CSim :=
 
 def CSim.cl (c : CSim) (e : CEv VerifiedName) : CSim := { c with ss := sstep c.ss (.cluster e) }
 
-def CSim.useKs (c : CSim) (i : Nat) : Option (CSim × String) :=
+def CSim.useKs (c : CSim) (i : Nat) (implTok : String := "") : Option (CSim × String) :=
   match c.names[i]? with
   | none => none
   | some (nm, cs) =>
@@ -537,6 +538,12 @@ def CSim.useKs (c : CSim) (i : Nat) : Option (CSim × String) :=
         let tok := match (c.ss.cluster.fanouts.find? (·.id = fid)).bind (·.resp) with
           | some o => outcomeTok o
           | none => "MODEL-STUCK"
+        -- which of several different node errors is reported follows the iteration order of a HashMap in the code
+        -- (`known_nodes.values()`): any non-broken node error is a legitimate answer
+        let nodeErrs := f.nodes.filterMap fun n => match c.ss.cluster.nodeAnswer ((c.ss.cluster.fanouts.find? (·.id = fid)).getD f) n with
+          | some (.error e) => if e == .broken then none else some ("e:" ++ useErrLabel e)
+          | _ => none
+        let tok := if tok.startsWith "e:" && nodeErrs.contains tok && nodeErrs.contains implTok then implTok else tok
         some (c, tok)
     | none => some (c, "MODEL-BUG")
 
@@ -564,7 +571,7 @@ def CSim.steps : List String → List String → CSim → List String → Option
       match arg.toNat? with
       | none => none
       | some i =>
-        match c.useKs i with
+        match c.useKs i tok with
         | none => none
         | some (c, t) => CSim.steps rest (impl.drop 1) c (t :: acc)
     | "R" =>
@@ -589,13 +596,15 @@ def CSim.steps : List String → List String → CSim → List String → Option
           let c := c.onNode n fun s => s.pool.conns.foldl (fun s i => s.ev (.breakConn i)) s
           CSim.steps rest (impl.drop 1) c ("k" :: acc)
     | "W" =>
-      let c := c.ss.cluster.known.foldl (fun c n => c.onNode n fun s => s.quiesce 8) c
-      let full := c.ss.cluster.known.all fun n => (c.ss.cluster.pools n).isFull
+      -- host-filtered nodes have no pool: nothing to wait for there
+      let pooled := c.ss.cluster.known.filter fun n => !c.ss.cluster.filtered.contains n
+      let c := pooled.foldl (fun c n => c.onNode n fun s => s.quiesce 8) c
+      let full := pooled.all fun n => (c.ss.cluster.pools n).isFull
       CSim.steps rest (impl.drop 1) c ((if full then "w1" else "w0") :: acc)
     | "A" =>
       let n := c.ss.cluster.nNodes
-      let c := c.cl (.addNode true 1)
-      let c := c.onNode n fun s => s.quiesce 8
+      let c := c.cl (.addNode true 1 (c.hostMask.testBit n))
+      let c := if c.hostMask.testBit n then c else c.onNode n fun s => s.quiesce 8
       CSim.steps rest (impl.drop 1) c (s!"a{c.ss.cluster.known.length}" :: acc)
     | "Q" =>
       match arg.toNat? with
@@ -612,16 +621,21 @@ def CSim.steps : List String → List String → CSim → List String → Option
     | _ => none
 
 def runSess (n names script impl : String) : String :=
-  match n.toNat?, parseNames names with
-  | some n, some names =>
-    if n < 1 ∨ n > 4 then "bad-case"
+  -- `<n>` or `<n>/<mask>`: bit i of the mask = the host filter rejects node i
+  let (n, mask) := match n.splitOn "/" with
+    | [a] => (a.toNat?, some 0)
+    | [a, m] => (a.toNat?, m.toNat?)
+    | _ => (none, none)
+  match n, mask, parseNames names with
+  | some n, some mask, some names =>
+    if n < 1 ∨ n > 4 ∨ mask ≥ 256 then "bad-case"
     else
-      let c0 : CSim := { ss := Session.init true 1, names, rules := [] }
-      let c := (List.range n).foldl (fun c _ => c.cl (.addNode true 1)) c0
+      let c0 : CSim := { ss := Session.init true 1, names, rules := [], hostMask := mask }
+      let c := (List.range n).foldl (fun c i => c.cl (.addNode true 1 (mask.testBit i))) c0
       match CSim.steps ((script.splitOn ";").filter (· ≠ "")) (impl.splitOn ";") c [] with
       | some toks => ";".intercalate toks
       | none => "bad-case"
-  | _, _ => "bad-case"
+  | _, _, _ => "bad-case"
 
 def run (case impl : String) : String :=
   match words case with
